@@ -369,7 +369,8 @@ R52 = [
 INNER_FRAME = ['r is Err ==> final(self).content@ == old(self).content@',
                'r matches Ok(e) ==> final(self).content@ == old(self).content@.insert(position as int, ElementContent::Element(e))']
 
-LEAVES = ['find_attribute_spec', 'find_sub_element', 'chardata_spec', 'is_named_in_version', 'compatible']
+# is_named / short_name_version_mask / is_ref are not called by the pinned text; declared so that a change that reaches for them is decided, not lost
+LEAVES = ['find_attribute_spec', 'find_sub_element', 'chardata_spec', 'is_named_in_version', 'compatible', 'is_named', 'short_name_version_mask', 'is_ref']
 TV = 'target_version as u32'
 
 
